@@ -319,6 +319,7 @@ class Walk:
         self.length = length
         self.snap_after_svc = snap_after_svc
         self.profile = profile
+        self.done = set()       # user operations resolved so far
         self.script = []        # concrete request lines
         self.out = []           # implementation responses
         self.notes = []         # per line: annotation dict for monitors
@@ -347,6 +348,9 @@ class Walk:
         self.notes.append(note)
         f, segs = resp_fields(resp)
         res = f.get("res", "")
+        for c in (f.get("comps") or "").split(","):
+            if c:
+                self.done.add(int(c.split(":")[0]))
         if res.startswith("panic") or res == "died":
             self.dead = True
         if res.startswith("err") and line.split(" ")[0] in ("eng.open", "eng.close", "eng.data", "eng.wc", "eng.svc"):
@@ -703,3 +707,116 @@ class Walk:
         self.snap()
         self.send(f"eng.reset t={self.t}", kind="final-reset")
         self.snap()
+
+
+class StrictWalk(Walk):
+    """A driver that services the engine only when the reported service time has been reached and after
+    each event it delivers, against a broker that answers everything (C08)."""
+
+    def run(self):
+        r = self.rng
+        self.violations = []       # (clause, detail, step)
+        self.send(self.new_line, kind="new")
+        budget = r.choice([3, 6, 12, 25])
+        reconnects = r.choice([0, 0, 1, 2])
+        # some operations submitted while offline
+        for _ in range(r.choice([0, 0, 1, 3])):
+            self.user_op()
+            budget -= 1
+        self.open()
+        idle_spins = 0
+        steps = 0
+        last_sig = None
+        while steps < self.length * 6 and not self.dead:
+            steps += 1
+            if self.errored:
+                # a connection-level failure: the driver closes and reconnects (cooperative transport)
+                self.close()
+                self.t += r.choice([1, 100])
+                self.open()
+                continue
+            b = self.broker
+            if budget > 0 and r.chance(0.25):
+                self.user_op()
+                budget -= 1
+                continue
+            if reconnects > 0 and b.connack_sent and r.chance(0.03):
+                reconnects -= 1
+                self.close()
+                self.t += r.choice([1, 100])
+                self.open()
+                continue
+            n = self.next_time()
+            if self.buf_len > 0 and (r.chance(0.6) or n is None or n > self.t):
+                self.write_completion()
+                continue
+            if n is not None and n <= self.t:
+                before = len(self.out)
+                self.service()
+                f, _ = resp_fields(self.out[before])
+                sig = (f.get("bytes"), f.get("comps"), f.get("res"))
+                if sig == ("x", "", "ok"):
+                    idle_spins += 1
+                    if idle_spins >= 4:
+                        # 'service me now' four times in a row without output, completion or state change
+                        snap1, _ = self.snap()
+                        self.service()
+                        snap2, _ = self.snap()
+                        n2 = self.next_time()
+                        if snap1 == snap2 and n2 is not None and n2 <= self.t:
+                            self.violations.append(("idle-spin", "the engine keeps reporting 'service now' but service produces no output, completes nothing and changes no state", len(self.script) - 1))
+                            break
+                        idle_spins = 0
+                else:
+                    idle_spins = 0
+                continue
+            idle_spins = 0
+            # nothing to service right now: let the broker speak
+            if b.connect_seen and not b.connack_sent:
+                self.deliver_connack_ok()
+                continue
+            if b.connack_sent and b.pending:
+                self.deliver_response()
+                continue
+            # the driver would now sleep until `n` (or forever): is there work the engine could do?
+            unresolved = self.unresolved_retained()
+            if unresolved and b.connack_sent:
+                self.violations.append(("lost-wake-up", f"operations {unresolved} are unresolved, the broker owes nothing, all writes are flushed, "
+                                                        f"yet the next service time is {'never' if n is None else str(n) + ' ms'} at {self.t} ms", len(self.script) - 1))
+                break
+            if budget > 0:
+                self.user_op()
+                budget -= 1
+                continue
+            if n is not None and n - self.t <= 200000 and r.chance(0.3):
+                self.t = n          # let a timer (keep alive) fire once in a while
+                continue
+            break
+        if not self.dead:
+            self.quiesce()
+        return self
+
+    def deliver_connack_ok(self):
+        b = self.broker
+        caps = {}
+        r = self.rng
+        if self.v5:
+            if r.chance(0.5):
+                caps["rm"] = r.choice([1, 2, 3, 10])
+            if r.chance(0.3):
+                caps["ska"] = r.choice([0, 2, 5, 60])
+        sp = 1 if (b.session and not getattr(b, "clean_start", False) and r.chance(0.7)) else 0
+        self.caps_sent = caps
+        self.data(b.connack(sp, 0, caps), "connack", split=False)
+        self.notes[-1].update(connack=dict(sp=sp, rc=0, caps=caps))
+        b.connack_sent = True
+        if not sp:
+            b.qos2_received = set()
+            b.out_qos2 = {}
+        b.session = True
+
+    def unresolved_retained(self):
+        """user operations submitted and not yet resolved (everything submitted in this walk is retained or
+        was failed at once by the policy, which shows up as a completion)"""
+        done = self.done
+        return [i for i in range(self.nuser) if i not in done]
